@@ -41,7 +41,7 @@ type c07Prop struct {
 
 func genC07(c *Ctx) error {
 	c.ShardSize = 30
-	c.Notes["rule"] = "one token chaincode instance A lives through the whole history; every proposal is run on A, on a fresh instance B created for that proposal over the same committed state, and on A again, with the same transaction id and timestamp; the three (status, message, payload bytes, write-set, event) are compared. Histories of 30-50 proposals: Init with one of two configurations (different robot), committed or simulated and dropped; token operations through executeTasks (emit, transfer, setFee with known / unknown currency, setFeeAddress, setRate, setLimits, buyToken, buyBack - right and wrong senders and amounts), committed or dropped, some in one task list of several tasks; queries (metadata, predictFee, balanceOf, allowedBalanceOf; also of an address the access-control service black-lists and clears between proposals); batched submissions whose proposal carries a trace parent in the transient map while each simulating peer's decorators add a different span of their own (the pending record is ledger data); probes which robot certificate the instance accepts; signed submissions sent to the same process under a second chaincode name (simulated and dropped); swaps begun in dropped simulations followed by an empty batchExecute (whose reply must not remember them); the cancellation of an open multi-swap sent with a timestamp before and with one after its deadline, both long past on the machine's own clock (the two replies must differ). Non-trivial: >= 3 dropped simulations that would have changed the metadata and >= 5 committed operations."
+	c.Notes["rule"] = "one token chaincode instance A lives through the whole history; every proposal is run on A, on a fresh instance B created for that proposal over the same committed state, and on A again, with the same transaction id and timestamp; the three (status, message, payload bytes, write-set, event) are compared. Histories of 30-50 proposals: Init with one of two configurations (different robot), committed or simulated and dropped; token operations through executeTasks (emit, transfer, setFee with known / unknown currency, setFeeAddress, setRate, setLimits, buyToken, buyBack - right and wrong senders and amounts), committed or dropped, some in one task list of several tasks; queries (metadata, predictFee, balanceOf, allowedBalanceOf; also of an address the access-control service black-lists and clears between proposals); batched submissions whose proposal carries a trace parent in the transient map while each simulating peer's decorators add a different span of their own (the pending record is ledger data); probes which robot certificate the instance accepts; the token's document list (complete and incomplete additions, deletions, by the issuer and by others, then the listing); signed submissions sent to the same process under a second chaincode name (simulated and dropped); swaps begun in dropped simulations followed by an empty batchExecute (whose reply must not remember them); the cancellation of an open multi-swap sent with a timestamp before and with one after its deadline, both long past on the machine's own clock (the two replies must differ). Non-trivial: >= 3 dropped simulations that would have changed the metadata and >= 5 committed operations."
 	n := c.N(60, 1000)
 	for i := 0; i < n; i++ {
 		if err := c07Case(c); err != nil {
@@ -195,6 +195,43 @@ func c07Case(c *Ctx) error {
 			jsteps = append(jsteps, map[string]interface{}{"submission_under_chaincode_name": alias, "status": ra.Status, "message": ra.Message})
 			c.Count(fmt.Sprintf("submission_under_name_%s_status_%d", alias, ra.Status))
 			dropped++
+			continue
+		}
+		if rng.Intn(12) == 0 && committedCfg != 0 {
+			// the token's document list: additions (complete lists, a list with an entry that lacks its id or hash, text that
+			// is no list), deletions of known and unknown ids, by the issuer and by others; committed or dropped; then the
+			// listing query
+			docs := []string{`[{"id":"d1","hash":"h1"}]`, `[{"id":"d2","hash":"h2"},{"id":"d3","hash":"h3"}]`, `[{"id":"d4","hash":"h4"},{"id":"","hash":"h5"},{"id":"d6","hash":"h6"}]`,
+				`[{"id":"d7","hash":""}]`, `[]`, `not json`, `[{"id":"d1","hash":"other"}]`}[rng.Intn(7)]
+			fn, args := "addDocs", []string{docs}
+			if rng.Intn(3) == 0 {
+				fn, args = "deleteDoc", []string{[]string{"d1", "d2", "nope", ""}[rng.Intn(4)]}
+			}
+			who := w.Issuer
+			if rng.Intn(5) == 0 {
+				who = u1
+			}
+			cw.nonce++
+			req := w.SignedArgs("tt", fn, who, strconv.FormatUint(cw.nonce, 10), args...)
+			data, _ := proto.Marshal(&fpb.ExecuteTasksRequest{Tasks: []*fpb.Task{{Id: w.Peer.NextTxID(), Method: fn, Args: req}}})
+			ra, dA, dB, dA2, err := run3(c07Prop{creator: robots[committedCfg].Creator, args: strArgs("executeTasks", []string{string(data)})})
+			if err != nil {
+				return err
+			}
+			steps = append(steps, fmt.Sprintf("SQuery %d %d %d", dA, dB, dA2))
+			if ra.OK() && rng.Intn(2) == 0 {
+				w.Peer.Commit("tt", ra)
+				committedOps++
+			} else {
+				dropped++
+			}
+			_, dA, dB, dA2, err = run3(c07Prop{creator: w.Client.Creator, args: strArgs("documentsList", nil)})
+			if err != nil {
+				return err
+			}
+			steps = append(steps, fmt.Sprintf("SQuery %d %d %d", dA, dB, dA2))
+			jsteps = append(jsteps, map[string]interface{}{"documents": fn, "args": args, "status": ra.Status})
+			c.Count("documents_" + fn)
 			continue
 		}
 		switch r := rng.Intn(100); {
